@@ -54,13 +54,13 @@ class Stream:
             n = len(self.buf) - self.pos
         out = self.buf[self.pos : self.pos + n]
         self.pos += len(out)
-        if any(isinstance(x, FloatBytes) for x in out):
+        if any(isinstance(x, FloatBytes) or is_symbolic(x) for x in out):  # opaque float blocks or symbolic byte values
             return ByteSeq(out)
         return bytes(out)
 
     def peek(self, n=1):
         out = self.buf[self.pos : self.pos + n]
-        if any(isinstance(x, FloatBytes) for x in out):
+        if any(isinstance(x, FloatBytes) or is_symbolic(x) for x in out):
             return ByteSeq(out)
         return bytes(out)
 
